@@ -825,11 +825,13 @@ def signature(step, problem):
     sig = {"call": o, "what": what, "outcome": step["out"], "pattern": "none"}
     if what == "names-count" and victim_post is not None and victim_post.get("names") and str(victim_post["names"][0]).startswith("<names raised"):
         what = sig["what"] = "names-undefined"
-    hollow = victim_post is not None and victim_post["k"] in ("td", "nt", "nts", "tc") and not holds_tensor(victim_post)
+    hollow = victim_post is not None and victim_post["k"] in ("td", "nt", "nts", "tc", "lazy") and not holds_tensor(victim_post)
     nested_key = len(op.get("new") or op.get("key") or []) > 1 or o == "unflatten_keys"
     was_nt_zero = victim_pre is not None and victim_pre["k"] in ("nt", "nts") and 0 in victim_pre["bs"]
     nt_above = any((sub_snapshot(pre, at[:i]) or {}).get("k") in ("nt", "nts") and 0 in (sub_snapshot(pre, at[:i]) or {}).get("bs", [])
                    for i in range(len(at) + 1))
+    # the entry (or one of its ancestors below the handle) did not exist before the call: auto-created by an index write
+    created_by_call = any(sub_snapshot(pre, at[:i]) is None for i in range(1, len(at) + 1))
     if cls == "index" and (was_nt_zero or nt_above):
         sig["pattern"] = "nontensor-zero-batch-restack"
     elif what == "names-undefined" and victim_post is not None and victim_post["k"] == "lazy":
@@ -843,9 +845,9 @@ def signature(step, problem):
         sig["pattern"] = "update-batch-size-nested-reset"
     elif o == "auto_batch_size_" and step["out"] == "raise" and what == "nested-batch" and not hollow:
         sig["pattern"] = "auto-batch-size-partial-on-raise"
-    elif what == "nested-batch" and hollow and cls in ("bs", "write") and not in_lazy:
+    elif what == "nested-batch" and hollow and cls in ("bs", "write"):
         sig["pattern"] = "hollow-nested-exempt-from-batch-check" if step["out"] == "ok" else "hollow-nested-grown-before-failed-check"
-    elif cls == "index" and what == "names-count" and victim_pre is None and victim_post is not None and victim_post["k"] == "td":
+    elif cls == "index" and created_by_call and what in ("names-count", "entry-device", "nested-device"):
         sig["pattern"] = "index-autocreated-nested-keeps-indexed-names"
     return sig
 
@@ -991,9 +993,10 @@ def result_signature(step, problem):
     """pattern of a problem found in the RESULT of an indexed read"""
     sig = {"call": "__getitem__", "what": problem["what"], "outcome": "ok", "pattern": "indexed-result"}
     victim = sub_snapshot(step.get("result") or {"k": "none"}, problem["at"]) if step.get("result") else None
-    if victim is not None and victim.get("k") == "nts" and victim.get("names") and str(victim["names"][0]).startswith("<names raised"):
+    if victim is not None and victim.get("k") in ("nts", "lazy") and victim.get("names") and str(victim["names"][0]).startswith("<names raised") \
+            and not victim.get("members"):
         sig["what"] = "names-undefined"
-        sig["pattern"] = "empty-nontensorstack-names-raise"
+        sig["pattern"] = "empty-stack-names-raise"
     return sig
 
 
@@ -1095,6 +1098,14 @@ def work(args):
             out["fails"].append({"label": "coherence:" + sg["what"], "case": case_of(rec, i), "detail": {"problem": p, "exception": st.get("exc")},
                                  "sig": sg})
         for p in st.get("result_problems") or []:
+            # results of reads are C03's (shapes, names of plain results) and C16's (non-tensor entries): here only the
+            # plain-TensorDict part of a result is judged, plus the names of stacks without members
+            on_path = [sub_snapshot(st["result"], p["at"][:j]) for j in range(len(p["at"]) + 1)]
+            exotic = [x for x in on_path if x is not None and x.get("k") in ("nt", "nts", "lazy", "tc")]
+            rs_sig = result_signature(st, p)
+            if exotic and rs_sig["pattern"] != "empty-stack-names-raise":
+                cnt("read:non-plain-result-problem-left-to-C03-C16")
+                continue
             out["fails"].append({"label": "indexed-result:" + p["what"], "case": case_of(rec, i), "detail": {"problem": p},
                                  "sig": result_signature(st, p)})
         # correspondence line
